@@ -467,7 +467,7 @@ def _check_cross(chk, real) -> None:
 
 def _histories(chk) -> list:
     rnd = random.Random(chk.seed)
-    n = 45 if chk.tier == "quick" else 600
+    n = 45 if chk.tier == "quick" else 300
     hs = corpus()
     for _ in range(n):
         hs.append(gen_history(rnd, rnd.randint(8, 30)))
